@@ -8,6 +8,7 @@ import (
 	"fmt"
 	"io"
 	"net/http"
+	"runtime/debug"
 	"sync"
 	"sync/atomic"
 	"testing"
@@ -30,6 +31,7 @@ import (
 // carries one summary line per scenario which the driver echoes.
 func TestVerifC06C(t *testing.T) {
 	log.SetLevel("error")
+	debug.SetMaxThreads(200000) // asynchronous cache commits block in file syscalls; see below
 	rnd := verifutil.NewRand(verifutil.Seed() + 2000)
 	out := verifutil.OpenOut()
 	defer out.Close()
@@ -56,10 +58,14 @@ func TestVerifC06C(t *testing.T) {
 		var bc cache.BlobCache
 		var err error
 		cacheKind := rnd.Intn(2)
+		// drawn here because a lossy directory cache commits synchronously: with asynchronous commits
+		// every re-fetch after a lost entry spawns a goroutine blocked in create/rename, and on a slow
+		// disk tens of thousands of them hit the Go runtime's thread limit (a harness artefact)
+		lossEvery := uint64([]int{0, 3, 7}[rnd.Intn(3)])
 		if cacheKind == 0 {
 			bc = cache.NewMemoryCache()
 		} else {
-			bc, err = cache.NewDirectoryCache(t.TempDir(), cache.DirectoryCacheConfig{MaxLRUCacheEntry: 1 + rnd.Intn(2), MaxCacheFds: 1 + rnd.Intn(2), SyncAdd: rnd.Bool()})
+			bc, err = cache.NewDirectoryCache(t.TempDir(), cache.DirectoryCacheConfig{MaxLRUCacheEntry: 1 + rnd.Intn(2), MaxCacheFds: 1 + rnd.Intn(2), SyncAdd: rnd.Bool() || lossEvery > 0})
 			if err != nil {
 				t.Fatal(err)
 			}
@@ -67,7 +73,6 @@ func TestVerifC06C(t *testing.T) {
 		// cache loss between fetch and copy: in two scenarios of three every Get fails with
 		// probability 1/lossEvery, as if the entry had been evicted and deleted in between (real caches
 		// of this size only move entries from memory to disk, they never lose them)
-		lossEvery := uint64([]int{0, 3, 7}[rnd.Intn(3)])
 		if lossEvery > 0 {
 			bc = &verifLossyCache{BlobCache: bc, every: lossEvery, salt: rnd.Uint64()}
 		}
